@@ -1,7 +1,9 @@
 CONSTANTS
+  Strict = TRUE
   Variant = "ok"
   MaxMoves = 3
   CfgSel = {"weekly", "oneshot", "workday", "yearly", "leap", "daily"}
+  StartSel = {1, 2}
 SPECIFICATION MSpec
 CONSTRAINT Bound
 VIEW View
